@@ -250,6 +250,8 @@ TEMPLATES = {
     # no parameters: the function's root scope is empty when the first let / block is reached
     'no-params': (([], ('block', [('let', ('pvar',), ('block', [('let', ('pvar',), V), ('expr', V)])), ('expr', V), ('let', ('pvar',), V), ('expr', V)]))),
     'no-params-clause': (([], ('block', [('expr', ('case', [('lit',)], [([('phole',)], ('block', [('let', ('pvar',), V), ('expr', V)]))])), ('use', [('pvar',)], V), ('expr', V)]))),
+    # the initialiser of `let _ = e` / `let _x = e`: its binders must be visible inside it (the discard pattern is also an expression node)
+    'let-discard': (([('pvar',)], ('block', [('let', ('phole',), ('call', V, [('lambda', [('pvar',)], V)])), ('let', ('phole',), ('block', [('let', ('pvar',), V), ('expr', V)])), ('expr', V)]))),
     'lambda-no-params': (([('pvar',)], ('block', [('let', ('pvar',), ('lambda', [], ('block', [('let', ('pvar',), V), ('expr', V)]))), ('expr', ('call', V, [V]))]))),
 }
 
